@@ -292,6 +292,53 @@ pub fn gen_history(rng: &mut Rng, thorough: bool) -> History {
     }
 }
 
+/// Long quiet periods: one slot is written, then left alone for N branch operations (creating and
+/// abandoning alternatives, with other slots written in between), then written inside an alternative
+/// that is abandoned; N sweeps a window around multiples of 2^8 and 2^16. Any bookkeeping kept in a
+/// fixed-width counter or stamp (an epoch, a generation number) wraps exactly there.
+pub fn wrap_window_histories() -> Vec<History> {
+    let mut out = Vec::new();
+    for &w in &[256usize, 65_536] {
+        for k in 1..=2usize {
+            for delta in -6i64..=6 {
+                let n = (w * k) as i64 + delta;
+                if n < 4 {
+                    continue;
+                }
+                let mut ops = vec![Op::Save(0, 1), Op::Push(1, 1), Op::Save(1, 2)];
+                // n branch operations in total between the two writes of slot 0 (the Push above is
+                // the first, the Push below the last)
+                let mut done = 1i64;
+                let mut depth = 1usize;
+                let mut t = 0usize;
+                while done < n - 1 {
+                    if depth > 1 && (t % 3 == 2 || depth > 6) {
+                        ops.push(Op::Pop);
+                        depth -= 1;
+                    } else {
+                        ops.push(Op::Push(t % 4, t % 3));
+                        depth += 1;
+                        if t % 5 == 0 {
+                            ops.push(Op::Save(1 + t % 2, t % 3));
+                        }
+                    }
+                    done += 1;
+                    t += 1;
+                }
+                ops.push(Op::Push(2, 2));
+                ops.push(Op::Save(0, 2));
+                ops.push(Op::Pop);
+                while depth > 0 {
+                    ops.push(Op::Pop);
+                    depth -= 1;
+                }
+                out.push(History { n_slots: 3, max_stack: 1_000_000, ops });
+            }
+        }
+    }
+    out
+}
+
 fn history_json(h: &History) -> Value {
     json!({
         "kind": "state-history",
@@ -754,6 +801,19 @@ pub fn run(opts: &Opts) -> i32 {
         println!("{}", l);
     }
 
+    // wrap-window histories (52 long ones; a few million operations in all)
+    let mut wrap_ops = 0u64;
+    for h in wrap_window_histories() {
+        let (st, v) = run_history(&h);
+        wrap_ops += st.ops;
+        if let Some((class, detail)) = v {
+            // not minimised: the length is the point
+            let v = Violation::new(PROP, &class, format!("{} (history of {} operations with a quiet period around a power of two)", detail, h.ops.len()), history_json(&h));
+            let path = write_replay(&v, seed);
+            report_violation(&v, &path);
+            return 1;
+        }
+    }
     let leak_listed = is_known(&known, PROP, KNOWN_KEY_LEAK).is_some();
     let mut agg = JobOut::default();
     let mut hist_nt = Distinct::new();
@@ -803,6 +863,7 @@ pub fn run(opts: &Opts) -> i32 {
         extra.insert("history_operations".into(), json!(agg.hist_ops));
         extra.insert("history_commits".into(), json!(agg.hist_commits));
         extra.insert("history_max_depth".into(), json!(agg.hist_max_depth));
+        extra.insert("wrap_window_histories".into(), json!({"count": 52, "operations": wrap_ops, "what": "one slot left alone for N branch operations, N in a window of +-6 around 2^8, 2*2^8, 2^16, 2*2^16, then written inside an abandoned alternative"}));
         extra.insert("distinct_nontrivial_histories".into(), json!(hist_nt.len()));
         extra.insert("distinct_nontrivial_vm_cases".into(), json!(prog_nt.len()));
         extra.insert("vm_cases".into(), json!(agg.prog_cases));
